@@ -42,6 +42,14 @@ Theorem C01_root_reports_no_parent : forall st r i kd pa pt fl its,
 Proof. exact root_reports_no_parent. Qed.
 Print Assumptions C01_root_reports_no_parent.
 
+(* (every node that leaves a tree does so through [add_detached] -- del, pop, remove, clear, popitem, replacement by
+   assignment / rebind / update -- which hands it back as a root: its own slot if it had been a root before, a new one otherwise) *)
+Theorem C01_removed_is_root : forall st i k pa pt fl its,
+  exists r t, nth_error (roots (add_detached st (Node i k pa pt fl its))) r = Some (Live t) /\
+              nid t = Some i /\ npar t = None /\ npth t = [] /\ t = detach (Node i k pa pt fl its).
+Proof. exact detached_is_root. Qed.
+Print Assumptions C01_removed_is_root.
+
 (* ... looking the reported path up from the root returns that very node ... *)
 Theorem C01_path_lookup : forall st r p i k pa pt fl its,
   wfs st -> get_at st (r, p) = Some (Node i k pa pt fl its) -> pt = p.
